@@ -133,6 +133,19 @@ def run(ctx):
         if os.path.exists(os.path.join(tdir, f)):
             for p in conformers(os.path.join(tdir, f), rng, cdir, f.split(".")[0]):
                 jobs.append({"kind": "file", "path": p, "find_gaps": False, "all": True})
+    # the command-line tool on a plain and on a gzipped copy of a corpus file, with every file-writing option
+    import gzip
+    import shutil
+    for f in ["1E7K_1_C.cif", "1ATO.pdb"]:
+        src = os.path.join(tdir, f)
+        if os.path.exists(src):
+            plain = os.path.join(cdir, "tool-" + f)
+            shutil.copy(src, plain)
+            with open(src, "rb") as a, gzip.open(plain + ".gz", "wb") as b:
+                b.write(a.read())
+            for p in (plain, plain + ".gz"):
+                jobs.append({"kind": "tool", "path": p, "flags": ["-c", "-j", "-b", "-p", "--inter-stem-csv", "--stems-csv"]})
+                jobs.append({"kind": "tool", "path": p, "flags": ["-f", "-a", "--stems-csv"]})
     # adapter path: corpus structure + FR3D listings in which one nucleotide has several competing canonical pairs
     for _ in range(ctx.pick(6, 40)):
         jobs.append({"kind": "external", "path": os.path.join(tdir, "184D.cif"), "listing": fr3d_listing(rng), "find_gaps": False})
@@ -166,8 +179,8 @@ def run(ctx):
     ref_key = next(iter(results))
     for ji, job in enumerate(jobs):
         ref = results[ref_key][ji]["first"]
-        nontrivial = job["kind"] in ("file", "external")
-        name = os.path.basename(job["path"]) if job["kind"] in ("file", "external") else "bpseq"
+        nontrivial = job["kind"] in ("file", "external", "tool")
+        name = os.path.basename(job["path"]) if job["kind"] in ("file", "external", "tool") else "bpseq"
         res.count("job:" + job["kind"])
         inp = {k: v for k, v in job.items()}
         bad = set()
@@ -198,7 +211,7 @@ def replay(ctx, data):
     inp = dict(data["input"])
     inp.pop("differs", None)
     inp.pop("line", None)
-    if "kind" not in inp or inp["kind"] not in ("file", "bpseq"):
+    if "kind" not in inp or inp["kind"] not in ("file", "bpseq", "tool"):
         print("site:", data["input"])
         return
     for s in ["0", "1", "2", "3"]:
